@@ -75,11 +75,12 @@ impl Angle {
             total_angle
         };
 
-        // count complete π/2 rotations (preserve full count)
-        let blade = (normalized_total / quarter_pi) as usize;
-
         // remainder within current π/2 segment
         let rem = normalized_total % quarter_pi;
+
+        // count complete π/2 rotations (preserve full count)
+        // taken from the exact remainder so quotient and remainder agree
+        let blade = ((normalized_total - rem) / quarter_pi).round() as usize;
 
         let angle = Self { rem, blade };
         angle.normalize_boundaries()
